@@ -16,9 +16,12 @@ const PATHS: &[&str] = &[
 ];
 // host patterns are compared with the Host value as the client wrote it, byte for byte: spellings with capitals on either side
 const HOST_PATTERNS: &[&str] = &["example.com", "*.example.com", "a.*", "*:8080", "localhost", "*.com", "ex*le.com", "é.example.com",
-                                 "Api.Example.com", "*.Example.COM", "LOCALHOST", "É.example.com"];
+                                 "Api.Example.com", "*.Example.COM", "LOCALHOST", "É.example.com",
+                                 // the absolute form of a name (trailing dot) is a different string
+                                 "example.com.", "*.example.com."];
 const HOSTS: &[&str] = &["", "example.com", "a.example.com", "a.b.example.com", "example.com:8080", "localhost", "other.org", "a.x", "é.example.com", "EXAMPLE.COM",
-                         "Api.Example.com", "api.example.com", "API.EXAMPLE.COM", "x.Example.COM", "x.example.com", "LOCALHOST", "Localhost", "É.example.com"];
+                         "Api.Example.com", "api.example.com", "API.EXAMPLE.COM", "x.Example.COM", "x.example.com", "LOCALHOST", "Localhost", "É.example.com",
+                         "example.com.", "a.example.com.", "example.com.:8080", "."];
 
 // ---------------------------------------------------------------------------------------------
 // large applications and long values
